@@ -1,0 +1,46 @@
+//go:build verif
+
+// Contracts for the verification machinery in /verif (comment only).
+package event
+
+/*@ immutable types/event.involvedFilter.kind types/event.involvedFilter.ns types/event.involvedFilter.name
+@*/
+
+/*@ theory eventfilters
+;; theory filters k8s
+;; uses core/v1.ObjectReference
+(declare-fun |F!core/v1.Event!InvolvedObject| (V) |S!core/v1.ObjectReference|)
+(declare-fun |F!types/event.involvedFilter!kind| (V) Str)
+(declare-fun |F!types/event.involvedFilter!ns| (V) Str)
+(declare-fun |F!types/event.involvedFilter!name| (V) Str)
+(declare-fun gvk-kind (V) Str)
+; C19: events whose involved object has the given kind, namespace and name
+(define-fun involved ((o V) (kind Str) (ns Str) (nm Str)) Bool
+  (and (isEvent o)
+       (= (|core/v1.ObjectReference.Kind| (|F!core/v1.Event!InvolvedObject| o)) kind)
+       (= (|core/v1.ObjectReference.Namespace| (|F!core/v1.Event!InvolvedObject| o)) ns)
+       (= (|core/v1.ObjectReference.Name| (|F!core/v1.Event!InvolvedObject| o)) nm)))
+(assert (forall ((f V) (o V)) (! (=> (= (dyntype f) |ty!*types/event.involvedFilter|)
+    (= (accept f o) (involved o (|F!types/event.involvedFilter!kind| f) (|F!types/event.involvedFilter!ns| f) (|F!types/event.involvedFilter!name| f))))
+    :pattern ((accept f o)))))
+@*/
+
+/*@ func types/event.InvolvedFilter
+  props C19 C17
+  theory eventfilters
+  ensures [is-involved-filter] (and (not (= result vnil)) (= (dyntype result) |ty!*types/event.involvedFilter|))
+  ensures [events-of-the-object] (forall ((o V)) (= (accept result o) (involved o {kind} {ns} {name})))
+@*/
+/*@ func (*types/event.involvedFilter).Accept
+  props C19 C18
+  theory eventfilters
+  implements filter.Filter.Accept
+  requires [recv] (not (= {f} vnil))
+  ensures (= result (involved {obj} {f.kind} {f.ns} {f.name}))
+@*/
+/*@ func (*types/event.involvedFilter).Equals
+  props C17
+  theory eventfilters
+  implements filter.ComparableFilter.Equals
+  requires [recv] (not (= {f} vnil))
+@*/
